@@ -249,6 +249,29 @@ pub fn enumerate(ctx: &Ctx, parts: &str, f: &mut dyn FnMut(&EncCase)) {
             }
         }
     }
+    // (i) adversarial signals × the whole option lattice (each vector's own block size)
+    if has('i') {
+        let menus = OptMenu::menus();
+        let adv = [Kind::AltExt, Kind::Noise(0), Kind::Spikes, Kind::Const, Kind::NoisyLow, Kind::Square];
+        for_each_deviation(&menus, if q { 2 } else { 3 }, |v| {
+            let opt = OptMenu::pick(v);
+            let b = opt.block as usize;
+            for bps in [8u32, 16, 32] {
+                for &kind in &adv {
+                    for ch in [1u8, 2] {
+                        if b > 4096 && (bps != 16 || ch == 2) {
+                            continue;
+                        }
+                        if ctx.mine() {
+                            let m = family(kind, 2, bps, b + 1 + (b > 16) as usize * 20);
+                            let pcm: Vec<i32> = if ch == 1 { m } else { m.iter().enumerate().flat_map(|(i, x)| [*x, if i % 2 == 0 { !*x } else { *x }]).collect() };
+                            f(&EncCase { set: "i", w: WriterKind::Sample, opt, sig: Sig { rate: 44100, bps, ch }, pcm: &pcm });
+                        }
+                    }
+                }
+            }
+        });
+    }
     // (h) signal-family grid on real block sizes
     if has('h') {
         let blocks: &[u16] = if q { &[16, 192, 4096] } else { &[16, 192, 4096, 65535] };
